@@ -113,7 +113,7 @@ def select(ctx, vecs):
 
 def go_vec(v):
     g = {k: v[k] for k in ("id", "fr", "hu", "pat", "sub", "sp", "m", "ct", "b", "ck", "ba", "to", "exp")}
-    if v.get("viol"):
+    if v.get("viol") or v.get("w"):
         g["w"] = True      # the harness reports what it observed for this vector
     return g
 
@@ -125,12 +125,17 @@ def run_arena(ctx, test, vin, rj, tag, trace=None, trace_n=0):
     if trace:
         env["VERIF_C11_TRACE"] = trace
         env["VERIF_C11_TRACE_N"] = str(trace_n)
-    rc, out = ctx.go_test(PKG, FILES, "^%s$" % test, env=env, timeout=1700, go_timeout="25m")
-    rows = vlib.read_ndjson(vout)
-    summ = [r for r in rows if r.get("kind") == "summary"]
-    if rc != 0 or not summ:
+    for attempt in (1, 2):
+        rc, out = ctx.go_test(PKG, FILES, "^%s$" % test, env=env, timeout=1700, go_timeout="25m")
+        rows = vlib.read_ndjson(vout)
+        summ = [r for r in rows if r.get("kind") == "summary"]
+        if rc == 0 and summ:
+            return rows
+        # the booted server listens on a picked loopback port: another process may take it first
+        if attempt == 1 and ("address already in use" in out or "startDNSServer" in out):
+            ctx.log("arena %s failed to boot (port taken); retrying once" % test)
+            continue
         raise vlib.Inconclusive("C11 harness %s did not complete (rc=%s):\n%s" % (test, rc, out[-3000:]))
-    return rows
 
 
 def both_arenas(ctx, vecs, rj, tag, trace=None, trace_n=0):
@@ -338,13 +343,13 @@ def run(ctx):
         verdict2 = validate_trace(ctx, tla, trace2)
         again = {b["i"] for b in verdict2["bad"]}
         t2 = vlib.read_ndjson(trace2)
-        for b in tbad:
+        for b in sorted(tbad, key=lambda b: (not b["why"].startswith("NoUnauth"), b["i"])):
             i = b["i"]
             if i in again and i <= len(t2) and t2[i - 1].get("concrete") == trows[i - 1].get("concrete"):
                 if trows[i - 1]["matched"] in reported:
                     continue   # the route itself has been reported above
                 rec = {"kind": "trace", "line": i, "entry": trows[i - 1], "expected": b["exp"], "cookie_class": b["cookie"],
-                       "hasUser": b["hasUser"], "why": b["why"]}
+                       "hasUser": b["hasUser"], "why": b["why"], "seed": ctx.seed, "trace_n": trace_n}
                 ctx.disagreement(classify(rec), rec, "trace line %d rejected by TraceRoutes (%s): %s cookie=%s(%s) basic=%s answered %s %s, admitted %s" % (
                     i, b["why"], trows[i - 1]["concrete"], trows[i - 1]["cookie"], b["cookie"], trows[i - 1]["basic"],
                     trows[i - 1]["status"], trows[i - 1]["poss"], b["exp"]))
@@ -394,18 +399,35 @@ def run(ctx):
 def replay(ctx, path):
     rec = json.load(open(path))["record"]
     doc, model, tla, rj = extract(ctx)
-    vec = rec.get("vec")
-    if not vec:
-        print(json.dumps({"expected": rec.get("expected"), "observed": rec.get("entry")}, indent=1))
-        return 1
+    if rec.get("kind") == "trace":
+        # the seeded history is recorded again and validated again
+        ctx.seed = rec.get("seed", ctx.seed)
+        trace = ctx.path("c11_trace_replay.ndjson")
+        vin = ctx.path("c11_in_replay.ndjson")
+        vlib.write_ndjson(vin, [])
+        open(vin, "a").write(json.dumps({"id": 0, "fr": True, "hu": False, "pat": "/zz-none", "sub": "", "sp": "canonical",
+                                         "m": "GET", "ct": "none", "b": False, "ck": "none", "ba": "none", "to": "/zz-none",
+                                         "exp": []}) + "\n")
+        run_arena(ctx, "TestZZVerifC11Real", vin, rj, "replay", trace=trace, trace_n=rec.get("trace_n", 3000))
+        verdict = validate_trace(ctx, tla, trace)
+        rows = vlib.read_ndjson(trace)
+        i = rec["line"]
+        hit = [b for b in verdict["bad"] if b["i"] == i and i <= len(rows) and rows[i - 1].get("concrete") == rec["entry"].get("concrete")]
+        print(json.dumps({"line": i, "request": rec["entry"].get("concrete"), "expected": rec.get("expected"),
+                          "observed": rows[i - 1] if i <= len(rows) else None, "rejected_again": bool(hit)}, indent=1))
+        return 1 if hit else 0
+    vec = rec["vec"]
+    vec = dict(vec, w=True)
     rows = both_arenas(ctx, [vec], rj, "replay")
     bad = [r for r in rows if r["kind"] == "bad"]
-    obs = [r for r in rows if r["kind"] in ("bad", "sample")]
-    print(json.dumps({"vector": vec, "expected": vec["exp"],
-                      "observed": [{"arena": r["arena"], "concrete": r["concrete"], "obs": r["obs"], "possible": r["possible"]} for r in obs]},
+    obs = [r for r in rows if r["kind"] == "watch"]
+    print(json.dumps({"vector": vec, "expected": vec["exp"], "observed": obs,
+                      "disagreements": [{"arena": r["arena"], "concrete": r["concrete"], "obs": r["obs"], "why": r["why"]} for r in bad]},
                      indent=1))
     if rec.get("kind") == "spec-violation":
-        # the violation is the route itself: it is still there if the model still
-        # admits this outcome and the real mux still agrees with the model
-        return 1 if (obs and not bad) else 0
+        # the violation is the route itself: it is still there while the real mux
+        # still answers the witness request the way the record says
+        runs = rec["requirement"] in ("NoUnauthenticatedHandler", "MutatingNeedsMethodAndJSON")
+        still = [o for o in obs if (o["possible"] == ["handler"]) == runs and (runs or "handler" not in o["possible"])]
+        return 1 if still else 0
     return 1 if bad else 0
